@@ -176,6 +176,30 @@ func c16Check(c *ctx, kind string, hdr []byte, tail []byte) {
 		}
 	}
 	c.model("icc_header", "icc_header "+hx(data), hx(data), impl, eqStr)
+	// cross-check of the extraction: a few of the runner's answers re-decided in the kernel
+	if c.runner != nil && len(data) <= 200 && c.rng.Intn(40) == 0 {
+		ans := c.runner.Ask("icc_header " + hx(data))
+		f := strings.Fields(ans)
+		if len(f) == 20 && f[0] == "ok" {
+			num := func(h string) string {
+				var v uint64
+				fmt.Sscanf(h, "%x", &v)
+				return fmt.Sprint(v)
+			}
+			var nums []string
+			for _, i := range []int{1, 2, 3, 4, 5, 6, 7, 9, 12, 13, 14, 15, 17} {
+				nums = append(nums, num(f[i]))
+			}
+			var ill []string
+			for _, h := range strings.Split(f[16], ",") {
+				ill = append(ill, num(h))
+			}
+			id := make([]byte, len(f[18])/2)
+			fmt.Sscanf(f[18], "%x", &id)
+			xcheck("icc_header", 20, fmt.Sprintf("match run_profile %s with Ok p => let h := p_header p in ([h_size h; h_cmm h; h_major h; h_minor h; h_class h; h_space h; h_pcs h; h_platform h; h_manuf h; h_model h; h_attrs h; h_intent h; h_creator h], (h_embedded h, h_depends h), h_illum h, h_id h) | Err _ => ([], (false, false), [], []) end = ([%s]%%N, (%v, %v), [%s]%%N, %s)",
+				coqBytes(data), strings.Join(nums, "; "), f[10] == "1", f[11] == "1", strings.Join(ill, "; "), coqBytes(id)))
+		}
+	}
 }
 
 func init() {
@@ -259,6 +283,9 @@ func init() {
 				c.res.fail(Failure{Class: "C16:truncated", Desc: "truncated header accepted", Input: hx(h), Got: impl, Want: "err"})
 			}
 			c.model("icc_header", "icc_header "+hx(h), hx(h), impl, eqStr)
+		}
+		if st := writeXCheck(c.out+"/Gen", "From Coq Require Import List ZArith NArith Bool. From Coq Require Import Strings.Byte. Import ListNotations.\nFrom PrismV Require Import IO.IO IO.Parse Icc.Icc."); st != nil {
+			c.res.GenStages = append(c.res.GenStages, st)
 		}
 	}
 }
